@@ -28,6 +28,16 @@ def main() -> None:
         rows.append(f"| {f.parent.name} | {m.get('property')} | {m.get('needs', '')} | {m.get('caught_by', '')} | {m.get('how_caught', '')} |")
     s = re.sub(r"(<!-- BEGIN seeded[^>]*-->).*?(<!-- END seeded -->)",
                lambda m: m.group(1) + "\n\n" + "\n".join(rows) + "\n\n" + m.group(2), s, flags=re.S)
+    # summary table from the committed evidence
+    srows = ["| property | theorems (all closed under the global context) | quick: evaluations | distinct non-trivial | model cases | disagreements | wall s |",
+             "|---|---|---|---|---|---|---|"]
+    for f in sorted((VERIF / "evidence").glob("C*.json")):
+        e = json.loads(f.read_text())
+        c = e.get("coverage", {})
+        srows.append(f"| {e['property_id']} | {c.get('obligations')} | {c.get('evaluations')} | {c.get('distinct_nontrivial')} | "
+                     f"{c.get('model_cases', '')} | {c.get('model_disagreements', '')} | {e.get('wall_s')} ({e.get('tier')}) |")
+    s = re.sub(r"(<!-- BEGIN summary[^>]*-->).*?(<!-- END summary -->)",
+               lambda m: m.group(1) + "\n\n" + "\n".join(srows) + "\n\n" + m.group(2), s, flags=re.S)
     # findings table
     frows = ["| property | status | signature | commit | what |", "|---|---|---|---|---|"]
     files = [VERIF / "known_findings.json"] + sorted((VERIF / "known_findings.d").glob("*.json"))
